@@ -552,6 +552,13 @@ impl ErasedNode for Node {
         debug_assert!(!self.is_in_recompute_heap());
         debug_assert!(self.is_necessary());
         if self.is_stale() {
+            /* A MapRef only learns whether its projection changed from [child_changed], which
+            the input calls on its current parents. If the input changed while this node was
+            unnecessary (not a parent), nobody compared the projections: the flag left over
+            from earlier says nothing about those changes, so assume the projection changed. */
+            if let Some(Kind::MapRef(mapref)) = self.kind() {
+                mapref.did_change.set(true);
+            }
             state.recompute_heap.insert(self.packed());
         }
         if let Some(Kind::Expert(expert)) = self.kind() {
@@ -639,7 +646,9 @@ impl ErasedNode for Node {
             Kind::MapRef(mapref) => {
                 // don't run child_changed on our parents, because we already did that in OUR child_changed.
                 self.value_opt.replace(None);
-                self.maybe_change_value_manual(None, mapref.did_change.get(), false, state)
+                // consume the flag: it describes the changes since the previous recompute
+                let did_change = mapref.did_change.replace(false);
+                self.maybe_change_value_manual(None, did_change, false, state)
             }
             Kind::MapWithOld(map) => {
                 let input = map.input.value_as_any().unwrap();
@@ -1315,7 +1324,8 @@ impl ErasedNode for Node {
                 let did_change = self_old.map_or(true, |old| {
                     !self.cutoff.borrow_mut().should_cutoff(old, self_new)
                 });
-                mapref.did_change.set(did_change);
+                // accumulate: the flag is reset when this node recomputes
+                mapref.did_change.set(mapref.did_change.get() || did_change);
                 // now we propagate to parent
                 // (but first, set the only_in_debug stuff & recomputed_at <- t.stabilisation_num)
                 let pci = self.parent_child_indices.borrow();
